@@ -37,22 +37,28 @@ theorem unamb_dynOK {S : Schema} (hU : S.unambiguous = true) (d : Nat) (x : Val)
 
 /-! ## Predicates for the hand-written codecs -/
 
+/-- what is proved of one `encCustom` call with codec `code` on the struct `id`
+    (`dc`: the struct also has a hand-written decoder). -/
+def CustConcl (S : Schema) (n code id tag : Nat) (v : Val) (ver : Option Ver) (v' : Val)
+    (ver' : Option Ver) (dc : Bool) : Prop :=
+  ∃ items fs fs', v = .struct fs ∧ v' = .struct fs'
+    ∧ encCustom S n code tag v ver = .ok (items, ver')
+    ∧ encCustom S n code tag v' ver = .ok (items, ver')
+    ∧ normCustom S n code tag v' ver = some (v', ver')
+    ∧ (∀ it ∈ items, it.tag = tag)
+    ∧ items.length = 1
+    ∧ (dc = true → Item.AllInRange items → ∀ (fd : Nat) (rs : List RawItem),
+        v.depth ≤ fd + 1 →
+        decCustom S fd code id tag (Cur.of (items.map Item.raw ++ rs)) ver
+          = .ok (v', Cur.of rs, ver'))
+
 /-- structs with a hand-written ENCODER (RequestBatchItem, ResponseBatchItem, UnknownPayload, and the
     union-like CredentialValue / KeyValue / KeyMaterial, which have no decoder of their own). -/
 def PCust (S : Schema) (n : Nat) : Prop :=
   ∀ (id tag : Nat) (v : Val) (ver : Option Ver) (v' : Val) (ver' : Option Ver),
     (S.structDef id).encCustom = true → S.structOK (S.structDef id) = true →
     normCustom S n (S.structDef id).custom tag v ver = some (v', ver') →
-    ∃ items fs fs', v = .struct fs ∧ v' = .struct fs'
-      ∧ encCustom S n (S.structDef id).custom tag v ver = .ok (items, ver')
-      ∧ encCustom S n (S.structDef id).custom tag v' ver = .ok (items, ver')
-      ∧ normCustom S n (S.structDef id).custom tag v' ver = some (v', ver')
-      ∧ (∀ it ∈ items, it.tag = tag)
-      ∧ items.length = 1
-      ∧ ((S.structDef id).decCustom = true → Item.AllInRange items → ∀ (fd : Nat) (rs : List RawItem),
-          v.depth ≤ fd + 1 →
-          decCustom S fd (S.structDef id).custom id tag (Cur.of (items.map Item.raw ++ rs)) ver
-            = .ok (v', Cur.of rs, ver'))
+    CustConcl S n (S.structDef id).custom id tag v ver v' ver' (S.structDef id).decCustom
 
 /-- structs encoded reflectively but DECODED by hand (Attribute, Credential, KeyBlock, and the Get /
     Register / Import / Export payloads). -/
@@ -156,5 +162,63 @@ theorem pk_struct (S : Schema) (hU : S.unambiguous = true) (n : Nat) (hFe : PFe 
               Cur.next_of _ rs
             simp only [hnext, Res.ok_bind, Res.pure_eq]
   · contradiction
+
+
+theorem ne_nil_of_len1 {α : Type} {l : List α} (h : l.length = 1) : l ≠ [] := by
+  intro e; rw [e] at h; cases h
+
+/-- assembly: every clause of `encK`/`decK`, one level up. -/
+theorem pk_succ (S : Schema) (hU : S.unambiguous = true) (n : Nat) (hK : PK S n) (hSl : PSlice S n)
+    (hFe : PFe S n) (hFd : PFd S n) (hC : PCust S n) (hCD : PCustDec S n) : PK S (n + 1) := by
+  intro k tag v ver v' ver' h
+  by_cases hs : k.scalar = true
+  · exact pk_scalar S (n + 1) k hs tag v ver v' ver' h
+  · cases k <;> simp only [Kind.scalar, not_true_eq_false] at hs
+    case any =>
+      obtain ⟨items, he, he', hn', ht, hl, hd⟩ := pk_any S n tag v ver v' ver' h
+      exact ⟨items, he, he', hn', ht, fun _ => hl, fun _ _ => ne_nil_of_len1 hl,
+        fun _ hr fd rs hfd _ => hd hr fd rs hfd⟩
+    case anyStruct =>
+      obtain ⟨items, he, he', hn', ht, hl, hd⟩ := pk_anyStruct S n tag v ver v' ver' h
+      exact ⟨items, he, he', hn', ht, fun _ => hl, fun _ _ => ne_nil_of_len1 hl,
+        fun _ hr fd rs hfd _ => hd hr fd rs hfd⟩
+    case struct id =>
+      obtain ⟨items, he, he', hn', ht, hl, hd⟩ := pk_struct S hU n hFe hFd hC hCD id tag v ver v' ver' h
+      exact ⟨items, he, he', hn', ht, fun _ => hl, fun _ _ => ne_nil_of_len1 hl,
+        fun hdec hr fd rs hfd _ => hd hdec hr fd rs hfd⟩
+    case ptr k' =>
+      obtain ⟨items, he, he', hn', ht, hl, hd⟩ := pk_ptr S n hK k' tag v ver v' ver' h
+      refine ⟨items, he, he', hn', ht, hl, ?_, hd⟩
+      intro _ hz
+      apply ne_nil_of_len1
+      apply hl
+      have h0 := h
+      rw [normK_ptr] at h0
+      split at h0
+      · simp [Val.isZero] at hz
+      · simp [emitsOne]
+      · contradiction
+    case slice k' =>
+      obtain ⟨items, he, he', hn', ht, hnz, hd⟩ := pk_slice S n hSl k' tag v ver v' ver' h
+      refine ⟨items, he, he', hn', ht, ?_, fun _ hz => hnz hz, hd⟩
+      intro h1; simp [emitsOne, Kind.definite, Kind.scalar] at h1
+    case iface =>
+      obtain ⟨items, he, he', hn', ht⟩ := pk_iface S n hK tag v ver v' ver' h
+      refine ⟨items, he, he', hn', ht, ?_, ?_, ?_⟩
+      · intro h1; simp [emitsOne, Kind.definite, Kind.scalar] at h1
+      · intro _ hz
+        cases v with
+        | iface o =>
+          cases o with
+          | none => simp [Val.isZero] at hz
+          | some p =>
+            obtain ⟨d, x⟩ := p
+            obtain ⟨x', items', _, he2, _, _, _, hl, _⟩ := pdyn_succ S n hK d tag x ver v' ver' h
+            rw [he] at he2
+            simp only [Res.ok.injEq, Prod.mk.injEq] at he2
+            rw [he2.1]; exact ne_nil_of_len1 hl
+        | _ => rw [normK_iface] at h; contradiction
+      · intro hdec; simp [Schema.decodable, Kind.base] at hdec
+    all_goals (rw [normK.eq_def] at h; simp at h)
 
 end Kmip
